@@ -246,12 +246,13 @@ class NDNApp:
         else:
             node_name = final_name
             implicit_sha256 = b''
-        node = self._int_tree.setdefault(node_name, InterestTreeNode())
-        node.append_interest(future, interest_param, implicit_sha256)
         # The lifetime counts from now, not from the moment the caller starts awaiting the result
         lifetime = 100 if interest_param.lifetime is None else interest_param.lifetime
         deadline = timestamp() + lifetime
+        # Send first: if the face refuses the packet the exception goes to the caller and nothing is left pending
         self.face.send(raw_interest)
+        node = self._int_tree.setdefault(node_name, InterestTreeNode())
+        node.append_interest(future, interest_param, implicit_sha256)
         return self._wait_for_data(future, deadline, node_name, node, validator, need_raw_packet)
 
     async def _wait_for_data(self, future: aio.Future, deadline: int, node_name: FormalName,
